@@ -25,12 +25,12 @@ def _alarm(signum, frame):
 
 
 def guarded(fn, secs=30):
-    signal.signal(signal.SIGALRM, _alarm)
-    signal.setitimer(signal.ITIMER_REAL, secs)
+    signal.signal(signal.SIGVTALRM, _alarm)
+    signal.setitimer(signal.ITIMER_VIRTUAL, secs)
     try:
         return fn()
     finally:
-        signal.setitimer(signal.ITIMER_REAL, 0)
+        signal.setitimer(signal.ITIMER_VIRTUAL, 0)
 
 
 def conc(t, bmap):
